@@ -222,7 +222,8 @@ def main():
     ksig0 = {k["signature"] for k in known0.get("findings", []) if k.get("property") == prop}
     unknown_failures = [f for f in res.oracle_failures if f.get("signature") not in ksig0]
     unexplained0 = [d for d in res.disagreements if d.get("signature") not in ksig0]
-    if (broken or unexplained0) and not unknown_failures and harness_error is None:
+    force_search = os.environ.get("VERIF_FORCE_SEARCH") == "1"   # (self-test) exercise the search-mode budget on a healthy tree
+    if (broken or unexplained0 or force_search) and not unknown_failures and harness_error is None:
         searched = True
         sctx = Ctx(prop, tier, seed + 7919, None if (tie_broken or drv is None) else drv, mode="search")
         sres = Result()
